@@ -70,6 +70,12 @@ def universe():
     for v in ATTR_VALUES:
         add(M([(S('str', 'a'), v)]))
         add(M([(S('str', 'b'), S('int', '1')), (S('str', 'a'), v)]))
+    # near-miss keys: dashed / underscored / differently cased / prefixed spellings of the attribute names
+    for v in (S('int', '1'), S('str', 'x'), S('bool', 'true'), Q([S('int', '1')]), M([(S('str', 'x'), S('int', '1'))])):
+        for key in ('a-b', 'a_b', 'A', 'ab', 'a ', 'a.b'):
+            add(M([(S('str', key), v)]))
+        add(M([(S('str', 'a-b'), v), (S('str', 'a_b'), S('str', 'other'))]))
+        add(M([(S('str', 'a_b'), v), (S('str', 'a-b'), S('str', 'other'))]))
     add(M([(S('str', 'a'), S('int', '1')), (S('str', 'a'), S('int', '2'))]))
     add(M([(S('int', '1'), S('int', '1'))]))
     add(M([(S('null', 'a'), S('int', '1'))]))
@@ -161,7 +167,7 @@ def calls():
         yield 'require_scalar', (t,)
     yield 'require_scalar', ('int', 'str')
     yield 'require_scalar', ('none', 'bool', 'float')
-    for name in ('a', 'b'):
+    for name in ('a', 'b', 'a_b', 'a-b'):
         yield 'require_attribute', (name,)
         for t in TYPES:
             yield 'require_attribute', (name, t)
